@@ -95,7 +95,7 @@ def setup_command_line(parser):
     parser.add_argument(
         '--input',
         '-i',
-        type=argparse.FileType('r'),
+        type=argparse.FileType('r', encoding='utf-8'),
         metavar="<input>",
         default='-')
     parser.add_argument('--quiet',
